@@ -70,6 +70,10 @@ pub fn qmut(world: &mut Wd, c: u64, v: u32, mode: &str, target: Option<Identifie
         2 => qmut_comp!(world, S, v, mode, target),
         3 => qmut_comp!(world, W, v, mode, target),
         4 => qmut_comp!(world, H, v, mode, target),
+        5 => qmut_comp!(world, T5, v, mode, target),
+        6 => qmut_comp!(world, T6, v, mode, target),
+        7 => qmut_comp!(world, T7, v, mode, target),
+        8 => qmut_comp!(world, T8, v, mode, target),
         _ => panic!("harness: bad comp"),
     }
 }
